@@ -526,6 +526,64 @@ pub fn enc_strategy(g: usize) -> BoxedStrategy<Vec<u8>> {
     }
 }
 
+/// valid encodings of elements with a small (or small negative) coordinate: x = 0, 1, 2, ... on the Weierstrass
+/// curves, small y on the Edwards curves, small u / w / s on the other groups (sampled on the reference side)
+pub fn small_coord_encodings(g: usize) -> &'static Vec<Vec<u8>> {
+    static T: OnceLock<Vec<OnceLock<Vec<Vec<u8>>>>> = OnceLock::new();
+    let t = T.get_or_init(|| (0..NGROUPS).map(|_| OnceLock::new()).collect());
+    t[g].get_or_init(|| {
+        let r = rg(g);
+        let len = r.enc_len();
+        let mut out: Vec<Vec<u8>> = Vec::new();
+        let mut push = |e: Vec<u8>| {
+            if let Some(p) = r.decode(&e) {
+                if !r.is_neutral(&p) {
+                    let c = r.encode(&p);
+                    if !out.contains(&c) {
+                        out.push(c);
+                    }
+                }
+            }
+        };
+        for c in 0u32..24 {
+            match g {
+                0 | 1 | 4 | 5 | 7 | 8 => {
+                    let q = match g { 0 | 7 => refs().ed25519.p.clone(), 1 | 8 => refs().ed448.p.clone(), 4 => (BigUint::from(1u32) << 255) - 18651u32, _ => (BigUint::from(1u32) << 255) - 3957u32 };
+                    for v in [BigUint::from(c), &q - 1u32 - c] {
+                        let mut e = pf::to_le(&v, len);
+                        push(e.clone());
+                        if is_edwards(g) {
+                            e[len - 1] |= 0x80;
+                            push(e);
+                        }
+                    }
+                }
+                2 | 3 => {
+                    let q = if g == 2 { refs().p256.p.clone() } else { refs().secp256k1.p.clone() };
+                    for v in [BigUint::from(c), &q - 1u32 - c] {
+                        for pre in [2u8, 3] {
+                            let mut e = vec![pre];
+                            e.extend(pf::to_be(&v, 32));
+                            push(e);
+                        }
+                    }
+                }
+                _ => {
+                    let mut e = vec![0u8; 32];
+                    e[0] = c as u8;
+                    push(e.clone());
+                    e[16] = 1;
+                    push(e.clone());
+                    e[0] = 0;
+                    e[16] = c as u8;
+                    push(e);
+                }
+            }
+        }
+        out
+    })
+}
+
 pub const PSRC_CLASSES: &[&str] = &["neutral", "base", "small", "uniform", "special"];
 
 /// point source of a given class; "special" is the group-specific family (torsion / mixed-order, scaled projective,
@@ -546,15 +604,27 @@ pub fn psrc_strategy(g: usize, class: usize) -> BoxedStrategy<PSrc> {
             0 | 1 => prop_oneof![
                 1 => any::<u8>().prop_map(PSrc::Torsion),
                 2 => (enc_strategy(g), any::<u8>()).prop_map(|(e, i)| PSrc::Mixed(e, i)),
+                1 => prop::sample::select(small_coord_encodings(g).clone()).prop_map(PSrc::Enc),
             ]
             .boxed(),
-            2 | 3 => (enc_strategy(g), prop::collection::vec(any::<u8>(), 32)).prop_map(|(e, l)| PSrc::Proj(e, l)).boxed(),
-            4 | 5 | 6 => prop::collection::vec(any::<u8>(), 0..40).prop_map(PSrc::Hash).boxed(),
+            2 | 3 => prop_oneof![
+                2 => (enc_strategy(g), prop::collection::vec(any::<u8>(), 32)).prop_map(|(e, l)| PSrc::Proj(e, l)),
+                1 => prop::sample::select(small_coord_encodings(g).clone()).prop_map(PSrc::Enc),
+                1 => (prop::sample::select(small_coord_encodings(g).clone()), prop::collection::vec(any::<u8>(), 32)).prop_map(|(e, l)| PSrc::Proj(e, l)),
+            ]
+            .boxed(),
+            4 | 5 | 6 => prop_oneof![
+                2 => prop::collection::vec(any::<u8>(), 0..40).prop_map(PSrc::Hash),
+                1 => prop::sample::select(small_coord_encodings(g).clone()).prop_map(PSrc::Enc),
+            ]
+            .boxed(),
             _ => {
                 let n = if g == 7 { 64 } else { 112 };
                 prop_oneof![
-                    1 => prop::collection::vec(any::<u8>(), n).prop_map(PSrc::Map),
-                    1 => (enc_strategy(g), any::<u8>()).prop_map(|(e, i)| PSrc::Rep(e, i)),
+                    2 => prop::collection::vec(any::<u8>(), n).prop_map(PSrc::Map),
+                    2 => (enc_strategy(g), any::<u8>()).prop_map(|(e, i)| PSrc::Rep(e, i)),
+                    1 => any::<u8>().prop_map(move |i| PSrc::Rep(vec![0u8; if g == 7 { 32 } else { 56 }], i)),
+                    1 => prop::sample::select(small_coord_encodings(g).clone()).prop_map(PSrc::Enc),
                 ]
                 .boxed()
             }
